@@ -1,6 +1,7 @@
 //! eggmon: language-level runtime monitors for egglog (one sub-command per property).
 mod battery;
 mod c01;
+mod c02;
 mod c03;
 mod c04;
 mod c05;
@@ -71,6 +72,7 @@ fn main() {
     run::quiet_panics();
     let report = match argv[1].as_str() {
         "c01" => c01::run(&a),
+        "c02" => c02::run(&a),
         "c03" => c03::run(&a),
         "c04" => c04::run(&a),
         "c05" => c05::run(&a),
